@@ -171,7 +171,7 @@ def run_case(seed, i, tier):
                 style, container, bsz, pol, n0, mult, detail), rp, known=known))
         if vs:
             break
-    if i % 20 == 0:
+    if True:
         cr.sample = {"bsz": bsz, "container": container, "style": style, "blocks": [n0, 2 * n0, 4 * n0], "policy": pol,
                      "second_source": second, "marks": {str(k): v for k, v in marks.items()}}
     return cr
